@@ -126,7 +126,8 @@ SPEC = PropSpec(
                  "3-packet stream (with and without a 3-byte prefix) cut at *every* byte offset x {bytes, file with "
                  "several read sizes, socket closed by its peer with several fragmentations}, and arbitrary byte "
                  "strings: termination (bounded interpreter steps), only complete packets, consecutive slices, short "
-                 "remainder. R10.5 consumers add no loop of their own."),
+                 "remainder. R10.5 consumers add no loop of their own."
+                 " R10.c: the definition's packet generator in header-only mode on a 3-packet stream cut at every byte (bytes, file, closed socket) ends normally with exactly the complete packets. Sources include files that live on disk (descriptor, mmap), handles that were read before, and show_progress=True."),
     rule_doc="R10.t one obligation per (prefix, cut offset) over all sources; R10.g per byte string; others per instance",
     assumptions=["a reader returns a falsy value once the source is exhausted (files, bytes, socket closed by its peer)"],
     mutants=mutants,
